@@ -14,7 +14,7 @@ CLAIMS["C04"] = ("dataflow inventory of request attributes read by the auth guar
 CLAIMS["C17"] = ("closed-world ownership of jwx verification primitives + must-pass-through (one-signature, allow-list, key source) per consumer + constant allow-list tables under both build-tag sets",
   "Static decision that signed tokens are verified only in vetted consumers, each requiring exactly one signature, an allow-listed asymmetric algorithm (or key-derived algorithm) and a key from the protocol's source. Exhaustive over the current source; necessary structural conditions.",
   "Trusts go/ssa and the jwx library's verification; OpenID-configuration metadata JWT and PKI denylist are listed owners outside the property's token list.")
-CLAIMS["C02"] = ("must-pass-through on the two token flows and the code-minting handler (per-presentation loops), argument provenance, ownership of token/code stores, reserved-claim table vs response struct tags",
+CLAIMS["C02"] = ("must-pass-through on the two token flows and the code-minting handler (per-presentation loops), argument provenance, ownership of token/code stores, reserved-claim table vs response struct tags + sticky loop-carried flags (MONOTONE-FLAG) + flow-sensitive value identity (reaching stores)",
   "Static decision that access tokens and authorization codes are issued only after every listed presentation/PKCE/nonce check passed, from request/session-bound arguments, and that introspection is built from the stored token with credential-derived claims unable to override named fields. Exhaustive over the current source; necessary structural conditions.",
   "Trusts go/ssa; verifier and PEX semantics are C01/C12; single-use atomicity is C05.")
 CLAIMS["C10"] = ("DETERM: map-iteration-order dataflow (append sinks must be sorted before escaping; folds/callbacks/first-match flagged) over the didstore package + total-order and sticky-deactivation argument checks",
@@ -23,7 +23,7 @@ CLAIMS["C10"] = ("DETERM: map-iteration-order dataflow (append sinks must be sor
 CLAIMS["C05"] = ("ATOMIC: check-then-act pair detection with lock-held analysis on single-use stores + ownership of plain reads + deferred-burn dominance + must-reach of the burning handler",
   "Static decision that single-use values are consumed only through the burn primitive, that a failed redemption burns the code, that nonce registrations keep the store's TTL, and that each check-then-act is atomic. The atomicity clause fails on today's tree at three sites, recorded as known findings; a new non-atomic pair is still reported.",
   "Trusts go/ssa; assumes the session backends give no cross-operation isolation (true for all three implementations).")
-CLAIMS["C13"] = ("ownership of version creation/commit calls + dominance order of the two phases + must-pass-through in both transaction closures and the sweep + loop-continuation gate + compensation table agreement with ON DELETE CASCADE edges parsed from the SQL migrations",
+CLAIMS["C13"] = ("ownership of version creation/commit calls + dominance order of the two phases + must-pass-through in both transaction closures and the sweep + loop-continuation gate + compensation table agreement with ON DELETE CASCADE edges parsed from the SQL migrations + sticky loop-carried flags (MONOTONE-FLAG) in the sweep + clock-independence (EFFECT) of the pending test",
   "Static decision of the two-phase protocol: versions only inside the helper, change log in tx1, commit loop stops at the first failure, compensation iff a commit failed, sweep per transaction id and only for uncommitted, consecutive versions, and every phase-1 table that decides subject existence is removed by the compensation. Exhaustive over the current source.",
   "Trusts go/ssa, gorm transaction/association semantics and SQL cascade enforcement; crash instants and SQL isolation are not decided.")
 CLAIMS["C19"] = ("PANICSITE: SSA inventory of ten panic-capable construct kinds (D1–D10, incl. zero values of failed comma-ok forms and nil-on-failure standard-library results) in the untrusted-input packages with dominating-guard recognition (access-path nil tests, comma-ok assertions, producer-type summaries) and a reviewed-safe table; FUEL checks on recursive resolvers and the IBLT decode loop; positive-control fixture",
@@ -47,10 +47,10 @@ CLAIMS["C15"] = ("inventory of message-literal fields that carry payload bytes +
 CLAIMS["C14"] = ("must-reach (post-dominance restricted to success exits) of event saves in the admission closure + ownership of notify (after-commit closures only), Finished and job deletion + must-pass-through on completion + persistency option table of the subscriber registrations + retry-budget constant checks",
   "Static decision that every admitted transaction/payload event is saved inside the admission transaction, that delivery starts only after commit, that a job disappears only on recorded completion while unfinished ones are persisted with an incremented retry counter, that the persistent subscribers are registered with persistency and resumed at start while their budget (maxRetries) lasts. Exhaustive over the current source.",
   "Trusts go/ssa and go-stoabs commit/after-commit semantics; retry timing and crash instants are not decided.")
-CLAIMS["C08"] = ("must-reach of the digest update after graph.add in the admission closure + must-pass-through in updateState/(*dag).add + shared write-transaction handle + OnRollback/loadState option and argument checks + ownership of tree mutators and bucket writers + lock-dominance on treeStore + same-transaction recompute/replace ordering of the repair",
+CLAIMS["C08"] = ("must-reach of the digest update after graph.add in the admission closure + must-pass-through in updateState/(*dag).add + shared write-transaction handle + OnRollback/loadState option and argument checks + ownership of tree mutators and bucket writers + lock-dominance on treeStore + same-transaction recompute/replace ordering of the repair + aliasing rule for tree.Data handed to Replace + root-only-at-the-head gate on whichever function takes the root",
   "Static decision that graph, digests, head and counters are written in one transaction, that a rollback or restart overwrites the in-memory state from disk, that the trees have a single writer discipline, and that the repair recomputes and replaces a page inside one write transaction only on a detected difference. Exhaustive over the current source.",
   "Trusts go/ssa and go-stoabs; numerical equality of digests with the stored set is not decided.")
-CLAIMS["C18"] = ("must-pass-through on did:web Resolve/DIDToURL and the deactivation gates + EFFECT (transitive-callee package classification) for did:jwk/did:key purity and local-first resolution + constant/argument checks (https literal, exact id equality, chain order, chain continues only on ErrNotFound)",
+CLAIMS["C18"] = ("must-pass-through on did:web Resolve/DIDToURL and the deactivation gates + EFFECT (transitive-callee package classification) for did:jwk/did:key purity and local-first resolution + constant/argument checks (https literal, exact id equality, chain order, chain continues only on ErrNotFound) + sibling agreement of the two 'deactivated' predicates + no package-level state in the did:jwk/did:key resolvers",
   "Static decision that did:web documents are fetched only over https from the host the DID encodes and accepted only with an identical id, that did:jwk/did:key resolution is effect-free and id-bound, that managed DIDs resolve locally first without network reachability, and that deactivated DIDs resolve only when allowed. Exhaustive over the current source.",
   "Trusts go/ssa, net/url parsing; the DID↔URL round-trip law and redirects are not decided.")
 CLAIMS["C20"] = ("per-refusal GATE/REFUSE under the strict-flag value set (loads of strict-mode named fields/params/globals) + flag-wiring dependence check (every strict-mode slot that is read is assigned from the flag) + argument/constant checks (https-only strict URL parse, default true, JSON-LD negation, sticky secret-flag error) + ownership of raw HTTP clients",
@@ -59,7 +59,7 @@ CLAIMS["C20"] = ("per-refusal GATE/REFUSE under the strict-flag value set (loads
 CLAIMS["C03"] = ("SURFACE (typed API inventory: no exported element outside the backends exposes a private-key type) + OWN (every interface conversion / field selection / serialiser call on a private-key value is in the owner table) + GATE on SignJWS's private-JWK refusal and on the key-name validator (pattern + dot-segment refusal, wrapper methods validate before delegating, all configured backends wrapped, backends never percent-decode names, UUID names for new keys) + ORDER (audit.Log dominates each key operation)",
   "Static decision of the structural conditions that keep private key material inside the key store and key names inside the key namespace. Exhaustive over the current source.",
   "Trusts go/ssa and go/types; that signatures verify with the published key and the run-time contents of logs/SQL rows are not decided.")
-CLAIMS["C07"] = ("must-pass-through (GATE) on the v2 handlers and conversation checks + must-reach (post-dominance) of the fallback requests + dispatch TABLE (message types = switch cases; bound handler consumes the case's type) + argument identity (responses echo the request's conversation id, requests send the registered message) + OWN (add-only shelves, single admission path) + all-paths store check on the gossip queue; the convergence/liveness statement itself is NOT decided",
+CLAIMS["C07"] = ("must-pass-through (GATE) on the v2 handlers and conversation checks + must-reach (post-dominance) of the fallback requests + dispatch TABLE (message types = switch cases; bound handler consumes the case's type) + argument identity (responses echo the request's conversation id, requests send the registered message) + OWN (add-only shelves, single admission path) + all-paths store check on the gossip queue; the convergence/liveness statement itself is NOT decided + sticky loop-carried flags (MONOTONE-FLAG) over the transport packages",
   "Static decision of C07's safety clauses (stale/unsolicited responses never touch state, admission only via State.Add, nothing deleted, payloads hash-checked) and of the structural necessary conditions for progress (every handler either is in sync or sends a follow-up, fallbacks exist, conversation ids line up, expired conversations do not block, advertised XOR/clock always refreshed). Exhaustive over the current source; liveness over schedules is declared not decided.",
   "Trusts go/ssa; convergence in finitely many rounds, IBLT capacity and timer behaviour are not decided.")
 CLAIMS["C12"] = ("must-pass-through (GATE) on the verifier (Validate/Resolve/resolveCredential) and wallet (matchConstraints … matchFilter, matchBasic, Build, submission-requirement rules) + sibling-arm agreement in matchFilter's type switch + index-pairing ORDER rule (k-th mapping ↔ k-th credential, same candidate) + argument identity (Validate returns the re-matched credentials) + whole-content equality; the wallet/verifier agreement relation itself is NOT decided",
